@@ -64,3 +64,23 @@ _c0 = register
 def register(R):
     _c0(R)
     register_render_lines(R)
+
+
+def register_capture(R):
+    # Capture: whatever the block produced - including the empty string - is what get() returns; only a capture that has
+    # not been closed yet has no result
+    R.record("CaptureR", [("_console", "opaque:Console"), ("_result", "Optional[str]")], pyclass="rich.console.Capture", mutable=True)
+    R.contract(
+        "rich.console", "Capture.get", serves=["C15"], params={"self": "CaptureR"}, returns="str", modifies=[],
+        raises={"CaptureError": "self._result is None"},
+        ensures=["self._result is not None", "seq_eq(result, self._result)"],
+        native=False,
+    )
+
+
+_c1 = register
+
+
+def register(R):
+    _c1(R)
+    register_capture(R)
